@@ -65,6 +65,7 @@ type Contract struct {
 type HintClause struct {
 	Where string // substring of the source line
 	C     Clause
+	Apply bool // C.E is a call  lemma(args): check the lemma's preconditions here, then assume its postconditions
 }
 
 type SetClause struct {
@@ -591,16 +592,23 @@ func (sp *Specs) load(path string, prefixed bool, pkgPath string) error {
 				return fail(fmt.Errorf("at outside func"))
 			}
 			q1 := strings.Index(rest, "\"")
-			q2 := strings.Index(rest[q1+1:], "\" assert ")
+			kw2 := "\" assert "
+			q2 := strings.Index(rest[q1+1:], kw2)
+			isApply := false
+			if q2 < 0 {
+				kw2 = "\" apply "
+				q2 = strings.Index(rest[q1+1:], kw2)
+				isApply = true
+			}
 			if q1 != 0 || q2 < 0 {
-				return fail(fmt.Errorf("expected: at \"source text\" assert EXPR"))
+				return fail(fmt.Errorf("expected: at \"source text\" assert EXPR  |  at \"source text\" apply lemma(args)"))
 			}
 			where := rest[1 : 1+q2]
-			c, err := mkClause(rest[1+q2+len("\" assert "):])
+			c, err := mkClause(rest[1+q2+len(kw2):])
 			if err != nil {
 				return fail(err)
 			}
-			cur.Hints = append(cur.Hints, HintClause{Where: where, C: c})
+			cur.Hints = append(cur.Hints, HintClause{Where: where, C: c, Apply: isApply})
 		case "sets":
 			if cur == nil {
 				return fail(fmt.Errorf("sets outside func"))
